@@ -1,5 +1,6 @@
 from abc import ABC
 from collections import abc, UserString
+from copy import copy
 from difflib import get_close_matches
 from datetime import date
 from inspect import isabstract, isclass
@@ -7,7 +8,7 @@ import re
 import typing
 from typing import (
         Any, cast, Dict, Iterable, Mapping, MutableMapping, MutableSequence,
-        List, Optional, Sequence, Tuple, Union)
+        List, Optional, Sequence, Set, Tuple, Union)
 from typing_extensions import Type
 
 import yaml
@@ -318,6 +319,38 @@ def find_recursive_alias(
         if found is not None:
             return found
     return None
+
+
+def expand_aliases(
+        node: yaml.Node, seen: Optional[Set[int]] = None) -> yaml.Node:
+    """Gives every alias its own copy of the node it refers to.
+
+    PyYAML represents an alias by the anchored node object itself.
+    Since YAtiML modifies nodes while processing them according to
+    the type expected at their position, a node that is used in
+    several positions must not be shared between them. The tree must
+    not be recursive, see :func:`find_recursive_alias`.
+
+    Args:
+        node: Head of the tree to expand.
+        seen: Ids of the nodes encountered so far.
+
+    Returns:
+        The head of a tree in which every node occurs only once.
+    """
+    if seen is None:
+        seen = set()
+    if id(node) in seen:
+        node = copy(node)
+    else:
+        seen.add(id(node))
+    if isinstance(node, yaml.SequenceNode):
+        node.value = [expand_aliases(item, seen) for item in node.value]
+    elif isinstance(node, yaml.MappingNode):
+        node.value = [
+                (expand_aliases(key, seen), expand_aliases(value, seen))
+                for key, value in node.value]
+    return node
 
 
 def cjoin(conjuction: str, words: Iterable[str]) -> str:
